@@ -202,6 +202,12 @@ struct QHarness {
 		for(auto it = q->freeList.begin(); it != q->freeList.end(); ++it) ++fl;
 #endif
 		k += fmt("a%d|F%zu", adds % 3, fl);
+#ifndef VERIF_NO_PRIVATE
+		// the implementation's pending list as a sequence of prototype indexes: a state holding the right events in another order
+		// must not be merged with the ordinary one (on a correct tree this is a function of the model's list and adds no states)
+		k += "|O:";
+		for(auto it = q->queueList.begin(); it != q->queueList.end(); ++it) k += it->empty() ? std::string("e") : fmt("%d", it->template get<typename Q::QueuedItemBase>().callableIndex);
+#endif
 		return k;
 	}
 	void quiescent() {
